@@ -86,3 +86,33 @@ def c16(quick):
         S.append((D(mode=mode, nj=2, pre=2, bs=1, managed="per_call", calls=[dict(n=4, cons="leave"), dict(n=3, cons="leave"), dict(n=2)]), "dfs", lim))
         S.append((D(mode=mode, nj=2, pre=3, bs=2, managed="per_call", calls=[dict(n=9, cons="leave"), dict(n=3)]), "random", rnd))
     return S
+
+
+def l2(which, quick):
+    """L2 (real threads, deterministic scheduler) scenarios: (cfg, number of seeded schedules)."""
+    r = 120 if quick else 1500
+    S = []
+    for cb in ("serial", "concurrent"):
+        if which == "C01":
+            for mode in (LIST, GEN):
+                S.append((D(mode=mode, nj=2, pre=4, bs=1, cbthreads=cb, calls=[dict(n=8)]), r))
+                S.append((D(mode=mode, nj=2, pre=6, bs=2, cbthreads=cb, calls=[dict(n=11)]), r))
+                S.append((D(mode=mode, nj=3, pre="2*n_jobs", bs="auto", bsizes=[1, 2], cbthreads=cb, calls=[dict(n=10)]), r))
+        elif which == "C04":
+            for mode in (LIST, GEN, UNORD):
+                S.append((D(mode=mode, nj=2, pre=4, bs=1, cbthreads=cb, calls=[dict(n=6, fail=(2,)), dict(n=4)]), r))
+                S.append((D(mode=mode, nj=2, pre=4, bs=1, cbthreads=cb, calls=[dict(n=7, fail=(1, 3)), dict(n=3, iterfail=2), dict(n=3)]), r))
+                S.append((D(mode=mode, nj=2, pre=4, bs=1, cbthreads=cb, joins=(cb == "serial"), calls=[dict(n=6, fail=(0,)), dict(n=5)]), r))
+                S.append((D(mode=mode, nj=2, pre=3, bs=1, cbthreads=cb, timeout=0.04, calls=[dict(n=5, hang=(1,)), dict(n=3)]), r // 2))
+        elif which == "C09":
+            for mode in (LIST, GEN, UNORD):
+                S.append((D(mode=mode, nj=2, pre=4, bs=1, cbthreads=cb, calls=[dict(n=10)]), r))
+                S.append((D(mode=mode, nj=2, pre=6, bs=1, cbthreads=cb, calls=[dict(n=12, fail=(1,))]), r))
+                S.append((D(mode=mode, nj=2, pre="2*n_jobs", bs=2, cbthreads=cb, calls=[dict(n=14)]), r))
+            S.append((D(mode=GEN, nj=2, pre=4, bs=1, cbthreads=cb, calls=[dict(n=10, closeat=2), dict(n=3)]), r))
+        elif which == "C16":
+            for mode in (GEN, UNORD):
+                S.append((D(mode=mode, nj=2, pre=4, bs=1, cbthreads=cb, calls=[dict(n=8)]), r))
+                S.append((D(mode=mode, nj=2, pre=4, bs=1, cbthreads=cb, calls=[dict(n=8, closeat=3), dict(n=4)]), r))
+                S.append((D(mode=mode, nj=2, pre=6, bs=2, cbthreads=cb, calls=[dict(n=10, closeat=1), dict(n=4, closeat=0), dict(n=3)]), r))
+    return S
